@@ -219,6 +219,25 @@ def main(tier: str) -> int:
         for lead in (b"", valid[0]):
             jobs.insert(len(jobs) // (2 + (declared % 3)), ("huge-length-with-payload", None, lead + wire.enc_varint(declared) + filler))
     pool = Pool()
+    # time must grow with the size of the input, not with its square: one frame of n and of 4n tiny rows (n = 50 000); linear work gives a ratio near 4
+    scaling = {}
+    for attempt in range(2):
+        small = pool.run({"id": -1, "scaling_rows": 50_000}, timeout=120)
+        large = pool.run({"id": -2, "scaling_rows": 200_000}, timeout=480)
+        if "hang" in large or "dead" in large or "hang" in small or "dead" in small:
+            run.violation({"clause": "hang", "kind": "one-frame-of-200000-rows"}, f"one frame of 200 000 tiny rows (1.4 MB): {large if 'scaling' not in large else small}", {"rows": 200_000})
+            pool = Pool()
+            break
+        worst = 0.0
+        for integ_ in ("generic", "rdflib"):
+            t_s, t_l = small["scaling"][integ_][1], large["scaling"][integ_][1]
+            scaling[integ_] = {"rows_50k_s": round(t_s, 2), "rows_200k_s": round(t_l, 2), "ratio": round(t_l / max(t_s, 1e-3), 1)}
+            worst = max(worst, t_l / max(t_s, 1e-3) if t_l > 3.0 else 0.0)
+        if worst <= 9.0:
+            break
+    else:
+        run.violation({"clause": "superlinear-time", "kind": "one-frame-of-200000-rows"},
+                      f"parsing time grows faster than the input: 4 x the rows of one frame cost {scaling} (twice in a row)", {"scaling": scaling})
     distinct = set()
     outcomes: dict = {}
     samples = []
@@ -262,7 +281,7 @@ def main(tier: str) -> int:
                 "and checks Progress/Bounded/termination of the abstract loop; each sequence, longer random walks over the same alphabet, and byte-level perturbations (bit flips, deletions, insertions, "
                 "splices, overlong varints, pure noise) of real streams are parsed by all six entry points from BytesIO, real files, BufferedReader and non-seekable sources in a worker with RLIMIT_AS=3GB and a watchdog of 10 s + 1 s per 4 kB of input. "
                 "distinct = distinct byte strings",
-        "samples": samples, "outcome_histogram": outcomes, "inputs": len(jobs), "token_sequences_from_tlc": len(seen),
+        "samples": samples, "scaling": scaling, "outcome_histogram": outcomes, "inputs": len(jobs), "token_sequences_from_tlc": len(seen),
         "tlc_states": r.distinct, "wall_parse_s": round(time.time() - t0, 1),
         "observed_not_modelled": "termination and memory behaviour of the protobuf C extension (upb) are observed under the watchdog, not consequences of the model",
     })
